@@ -33,6 +33,8 @@ def op_alphabet(keys, nmax):
                 for after in (False, True):
                     ops.append(['add', k, {'pos_key': p, 'after': after}])
         ops.append(['add', k, {'replace': False}])
+        ops.append(['add', k, {'index': 0, 'replace': False}])
+        ops.append(['add', k, {'pos_key': keys[(keys.index(k) + 1) % len(keys)], 'after': True, 'replace': False}])
         ops.append(['del', k])
         ops.append(['append', k])
     ops.append(['add', keys[0], {'index': 0, 'pos_key': keys[-1]}])
@@ -321,6 +323,7 @@ def run(part, args, env):
             st.fixed_dictionaries({'index': idx, 'after': st.booleans()}),
             st.fixed_dictionaries({'pos_key': key | st.just('zz'), 'after': st.booleans()}),
             st.fixed_dictionaries({'replace': st.just(False)}),
+            st.fixed_dictionaries({'pos_key': key, 'after': st.booleans(), 'replace': st.just(False)}),
             st.fixed_dictionaries({'index': idx, 'replace': st.booleans()}),
             st.fixed_dictionaries({'index': idx, 'pos_key': key}),
             st.just({}))
